@@ -620,7 +620,7 @@ func Spec() *core.Spec {
 		Race:  true,
 		Rule: "scenarios of 1-16 (thorough: up to 128) connections put into seeded states {idle, idle after a request, partial request sent, handler gated and released after Shutdown was called, handler waiting for its context, response blocked on a non-reading client, connect hook failing, request racing with Shutdown} plus connections dialling while Shutdown runs; " +
 			"an event log with a global logical clock (connect/terminate hooks with a connection id installed in the context, handler start/end/cancel, shutdown called/returned, Serve returned) is checked offline; " +
-			"grace-period scenarios take 3 s and are judged with a one-sided comparison (a cancellation must not come EARLIER than 2.9 s after Shutdown was called); directed schedule through the verif hook between Accept and wg.Add; connect storms (16 clients connecting in a loop on 2 processors while Shutdown is called). distinct = distinct state combinations",
+			"grace-period scenarios take 3 s and are judged with a one-sided comparison (a cancellation must not come EARLIER than 2.9 s after Shutdown was called); directed schedule through the verif hook between Accept and wg.Add; connect storms (16 clients connecting in a loop on 2 processors while Shutdown is called). Shutdown called twice (together / in a row) or after the owner closed the listener, judged at the first return; distinct = distinct state combinations",
 		Assumptions: []string{"the documented grace period is 3 s; load can only make a cancellation later, so the one-sided comparison cannot be falsified by a slow machine", "goroutines gone = none with a library frame within 10 s after Shutdown returned"},
 		Required:    []string{"scenarios", "events", "paired_hooks", "failed_connect_hooks", "in_flight_answered", "in_flight_cancelled", "census_checks", "directed.accepted-not-yet-counted", "connect_storms", "shutdown_mode.twice-together", "shutdown_mode.twice-in-a-row", "shutdown_mode.listener-closed-first"},
 		Shards:      func(string) int { return 8 },
